@@ -19,6 +19,10 @@ func main() {
 		deepChild(os.Args[2:])
 		return
 	}
+	if os.Args[1] == "fanchild" {
+		fanChild(os.Args[2:])
+		return
+	}
 	f, ok := checks[os.Args[1]]
 	if !ok {
 		fmt.Fprintln(os.Stderr, "seqmc: unknown check", os.Args[1])
